@@ -17,6 +17,8 @@ RULE = ("configuration lattice: backing (dense/csc/csr matrix, allocating functi
         "KLExpansion | MappedGeometry(scaling)) x operation (forward+adjoint, get_matrix, T.forward/T.adjoint/T.get_matrix/T.T, "
         "T after get_matrix); test problems Deconvolution1D (5 BC x gauss/moffat/defocus/custom integer PSFs x PSF size parity, "
         "legacy), Deconvolution2D (5 BC x PSFs x parity), Abel1D (field types). distinct = distinct (configuration, matrix, x, y); "
+        "input forms: 23 backings x (forward, adjoint, T.forward, T.adjoint, @) x (ndarray, CUQIarray, Samples, 2-d batch; parameters or function values) with dtype (float64, float32, int64, int32, bool) x layout "
+        "(contiguous, strided / Fortran) inside each case; Deconvolution2D neumann / nearest with mirror-symmetric odd PSFs at dim 1, 2, 3, 5 (the proved positive classes). "
         "trivial = identity matrix with identity-like geometries, zero x or y, and the bookkeeping cases that carry an oracle verdict")
 
 TOL = Fraction(1, 10**9)
@@ -1297,7 +1299,10 @@ def inform_case(meta, cell):
     exact = m.exact
 
     def columns_of(cls):
-        return units + [vals[cls]["f" if is_fun else "p"]]
+        # the whole identity for the integer dtypes (np.eye(n, dtype=int) as Samples reads the matrix off column by column);
+        # one unit column and the class vector for the float and bool dtypes
+        v = vals[cls]["f" if is_fun else "p"]
+        return units + [v] if cls == "int" else [units[0], v]
 
     def build_input(cls, dt, layout):
         if kind in ("arr", "cuqi"):
@@ -1343,36 +1348,34 @@ def inform_case(meta, cell):
     # ---- oracle ---------------------------------------------------------------------------------------------------------
     detail, sig = None, ""
     fcoq, wcoq, wname = INFORM_COQ[kind]
-    for key, o in obs.items():
-        dt = key.split("/")[0]
-        cls = DT_CLASS[dt]
-        r = ref[cls]
-        ex = exact or False
-        if not exact and dt == "float32":
-            close = lambda a, b: isinstance(a, list) and isinstance(b, list) and len(a) == len(b) and all(abs(p - q) <= 1e-5 * (1 + abs(q)) for p, q in zip(a, b))
-        else:
-            close = lambda a, b: same_vec(a, b, ex)
-        if kind in ("arr", "cuqi"):
-            okv = close(o["val"], r)
-        else:
-            okv = isinstance(o["val"], list) and len(o["val"]) == len(r) and all(close(a, b) for a, b in zip(o["val"], r))
-        if not okv:
-            detail = ("%s on a %s (%s) of dtype %s, layout %s gives %s [%s] but the plain float64 ndarray call%s on the same numbers give%s %s"
-                      % (call, wname, "function values" if is_fun else "parameters", dt, "contiguous" if key.endswith("/C") else "strided/Fortran", o["val"], o["wrap"],
-                         "" if kind in ("arr", "cuqi") else "s column by column", "s" if kind in ("arr", "cuqi") else "", r))
-            sig = "LinearModel.%s|input-form:%s,%s" % (call, form, DT_CLASS[dt] if dt not in ("float64",) else "float64")
-            break
-        if o["wrap"] != wname:
-            detail, sig = "%s on a %s of dtype %s returns a %s" % (call, wname, dt, o["wrap"]), "LinearModel.%s|input-form-type:%s" % (call, form)
-            break
-        if kind == "samples" and o["dt"] != "float64":
-            detail = "%s on Samples of dtype %s returns Samples whose array has dtype %s (values %s): the per-sample output buffer must be float" % (call, dt, o["dt"], o["val"])
-            sig = "LinearModel.%s|input-form-dtype:%s" % (call, form)
-            break
-        if opdt in ("float64", "float32") and not str(o["dt"]).startswith("float"):
-            detail = "%s on a %s of dtype %s returns dtype %s although the operator data are %s" % (call, wname, dt, o["dt"], opdt)
-            sig = "LinearModel.%s|input-form-dtype:%s" % (call, form)
-            break
+    for stage in ("values", "container", "dtype"):          # a wrong VALUE is reported before a wrong container / dtype
+        for key, o in obs.items():
+            if detail is not None:
+                break
+            dt = key.split("/")[0]
+            cls = DT_CLASS[dt]
+            r = ref[cls]
+            if not exact and dt == "float32":
+                close = lambda a, b: isinstance(a, list) and isinstance(b, list) and len(a) == len(b) and all(abs(p - q) <= 1e-5 * (1 + abs(q)) for p, q in zip(a, b))
+            else:
+                close = lambda a, b: same_vec(a, b, exact)
+            if kind in ("arr", "cuqi"):
+                okv = close(o["val"], r)
+            else:
+                okv = isinstance(o["val"], list) and len(o["val"]) == len(r) and all(close(a, b) for a, b in zip(o["val"], r))
+            if stage == "values" and not okv:
+                detail = ("%s on a %s (%s) of dtype %s, layout %s gives %s [%s, dtype %s] but the plain float64 ndarray call%s on the same numbers give%s %s"
+                          % (call, wname, "function values" if is_fun else "parameters", dt, "contiguous" if key.endswith("/C") else "strided/Fortran", o["val"], o["wrap"], o["dt"],
+                             "" if kind in ("arr", "cuqi") else "s column by column", "s" if kind in ("arr", "cuqi") else "", r))
+                sig = "LinearModel.%s|input-form:%s,%s" % (call, form, DT_CLASS[dt] if dt != "float64" else "float64")
+            elif stage == "container" and o["wrap"] != wname:
+                detail, sig = "%s on a %s of dtype %s returns a %s" % (call, wname, dt, o["wrap"]), "LinearModel.%s|input-form-type:%s" % (call, form)
+            elif stage == "dtype" and kind == "samples" and o["dt"] != "float64":
+                detail = "%s on Samples of dtype %s returns Samples whose array has dtype %s (values %s): the per-sample output buffer must be float64" % (call, dt, o["dt"], o["val"])
+                sig = "LinearModel.%s|input-form-dtype:%s" % (call, form)
+            elif stage == "dtype" and opdt in ("float64", "float32") and not str(o["dt"]).startswith("float"):
+                detail = "%s on a %s of dtype %s returns dtype %s although the operator data are %s" % (call, wname, dt, o["dt"], opdt)
+                sig = "LinearModel.%s|input-form-dtype:%s" % (call, form)
     ident_obs = None
     if detail is None and form == "samples_par":
         S = obs["int64/C"]["val"]
@@ -1436,7 +1439,6 @@ def inform_lattice(ctx, rng):
     """backing x call x input form; dtype x layout inside each case"""
     Q = lambda r, c: [[rng.randint(-12, 12) / 4.0 for _ in range(c)] for _ in range(r)]
     Z = lambda r, c, lo=-3, hi=3: [[rng.randint(lo, hi) for _ in range(c)] for _ in range(r)]
-    vecgeo = True
     models = [
         ("dense", {"backing": "dense", "A": Q(2, 3), "D": ["cont1d", 3], "R": ["int", 2]}, "float64", True),
         ("csc", {"backing": "csc", "A": Q(2, 3), "D": ["discrete", 3], "R": ["cont1d", 2]}, "float64", True),
@@ -1458,18 +1460,26 @@ def inform_lattice(ctx, rng):
         ("Deconvolution2D", {"tp": "deconv2d", "dim": 3, "PSF": [[1, 0, 2], [0, 3, 1], [1, 1, 0]], "BC": "periodic"}, "float64", False),
         ("Abel1D", {"tp": "abel", "dim": 4}, "float64", True),
     ]
+    # Deconvolution2D under the other four boundary conditions (C07_deconv2_get_matrix: forward(Samples(I)) = get_matrix() for all five):
+    # the parameter forms of forward / adjoint only
+    only = {}
+    for bc in ("zero", "nearest", "neumann", "mirror"):
+        models.append(("Deconvolution2D-" + bc, {"tp": "deconv2d", "dim": 3, "PSF": [[1, 0, 2], [0, 3, 1], [1, 1, 0]], "BC": bc}, "float64", False))
+        only["Deconvolution2D-" + bc] = (("forward", "adjoint"), ("arr_par", "samples_par"))
+    # the cases of these two carry long exact rationals (dst matrices, Abel quadrature weights): T is left to the other backings
+    only["dense@kl"] = (("forward", "adjoint"), tuple(INFORMS))
+    only["Abel1D"] = (("forward", "adjoint", "matmul"), tuple(INFORMS))
     out = []
     for label, ms, opdt, batches in models:
         if ms.get("impl") == "matmul":
             ms["par"] = ms["A"]
-        if "tp" in ms:
-            nD, nR = tp_dims(ms)
-            D = R = None
         m0 = build_model({"model": ms})
         for call in INCALLS:
             dom_side = call in ("forward", "matmul", "T.adjoint")
             Gin = m0.D if dom_side else m0.R
             for form in INFORMS:
+                if label in only and (call not in only[label][0] or form not in only[label][1]):
+                    continue
                 if form.startswith("batch") and not batches:
                     continue
                 if call == "matmul" and form.endswith("_fun"):
@@ -1892,6 +1902,19 @@ def run(ctx):
                 if dim == 4 and (ctx.thorough or sp_["psf_name"] in ("asym3", "asym4", "gauss3", "sym3", "motion3", "big7")):
                     for op in ("gm", "T", "T_after_gm"):
                         add(sp_, op, rvec(rng, sp_["dim"] ** 2), rvec(rng, sp_["dim"] ** 2), cell + "/" + op)
+
+    # the classes where the identity HOLDS under the non-periodic paddings (C07_deconv2_symmetric_padding_adjoint: 'neumann' with a
+    # mirror-symmetric PSF of odd size, every image size, also PSFs wider than the image; C07_deconv2_edge_padding_3x3_adjoint:
+    # 'nearest' with a mirror-symmetric 3x3 PSF): a failure here is NOT in a known class
+    msym7 = [[(1 + abs(i - 3) + 2 * abs(j - 3)) % 4 for j in range(7)] for i in range(7)]
+    msym_psfs = {"sym3": int_psfs_2d["sym3"], "aniso3": int_psfs_2d["aniso3"], "dsym5": int_psfs_2d["dsym5"], "msym7": msym7, "one": [[2]]}
+    for bc, names in (("neumann", ("sym3", "aniso3", "dsym5", "msym7", "one")), ("nearest", ("sym3", "aniso3", "one"))):
+        for dim in (1, 2, 3, 5):
+            for nm in names:
+                sp_ = {"tp": "deconv2d", "dim": dim, "PSF": msym_psfs[nm], "BC": bc, "psf_name": nm}
+                for op in (("fa", "T") if dim in (2, 3) else ("fa",)):
+                    for _ in range(reps if op == "fa" else 1):
+                        add(sp_, op, rvec(rng, dim * dim), rvec(rng, dim * dim), "Deconvolution2D/%s/mirror-symmetric-odd-PSF/dim%d/%s" % (bc, dim, op))
 
     # a non-square custom PSF is refused at construction (the padded convolution has another shape than the image)
     for shp in ((3, 5), (4, 2)):
